@@ -56,9 +56,7 @@ func deepSnapshot(s *ast.Schema) string {
 		case reflect.Struct:
 			fmt.Fprintf(h, "%s{", v.Type().Name())
 			for i := 0; i < v.NumField(); i++ {
-				if v.Type().Field(i).PkgPath != "" {
-					continue
-				}
+				// unexported fields too: a cache hidden in the schema is schema state
 				fmt.Fprintf(h, "%s:", v.Type().Field(i).Name)
 				walk(v.Field(i), depth+1)
 			}
